@@ -193,11 +193,18 @@ func (app *App) processSubAppsRoutes() {
 				continue
 			}
 
+			// The sub-app numbers its methods by its own Config.RequestMethods:
+			// look its stack up by the name of the method, a method it does not know has no routes
+			var subStack []*Route
+			if sm := route.group.app.methodInt(app.config.RequestMethods[m]); sm != -1 {
+				subStack = route.group.app.stack[sm]
+			}
+
 			// Create a slice to hold the sub-app's routes
-			subRoutes := make([]*Route, len(route.group.app.stack[m]))
+			subRoutes := make([]*Route, len(subStack))
 
 			// Iterate over the sub-app's routes
-			for j, subAppRoute := range route.group.app.stack[m] {
+			for j, subAppRoute := range subStack {
 				// Clone the sub-app's route
 				subAppRouteClone := app.copyRoute(subAppRoute)
 
